@@ -979,6 +979,61 @@ def shard(ctx, col):
                  ctx.hyp_seed + 500)
 
 
+def minimise(case, bucket):
+    """Flag cases: fewer flags, fewer user values, shorter texts, same bucket.  (Literal
+    cases are already shrunk when they are bucketed.)"""
+    if case.get('kind') != 'flag':
+        return case
+
+    def fails(c):
+        try:
+            return any(b == bucket for b, d in check_case(c))
+        except Exception:
+            return False
+    c = json.loads(json.dumps(case))
+    if not fails(c):
+        return case
+    def drop(c):
+        for k in sorted(c.get('user', {})):
+            c2 = json.loads(json.dumps(c))
+            del c2['user'][k]
+            if fails(c2):
+                c = c2
+        i = 0
+        while i < len(c['defs']):
+            c2 = json.loads(json.dumps(c))
+            del c2['defs'][i]
+            if c2.get('forms'):
+                del c2['forms'][i]
+            if c2['defs'] and fails(c2):
+                c = c2
+            else:
+                i += 1
+        return c
+    c = drop(c)
+
+    def shrink(get, put):
+        def test(chars):
+            c2 = json.loads(json.dumps(c))
+            put(c2, ''.join(chars))
+            return fails(c2)
+        chars = list(get(c))
+        if len(chars) > 1:
+            chars = core.ddmin(chars, test, max_tests=60)
+        for j in range(len(chars) - 1, -1, -1):
+            if test(chars[:j] + chars[j + 1:]):
+                chars = chars[:j] + chars[j + 1:]
+        put(c, ''.join(chars))
+    for i in range(len(c['defs'])):
+        shrink(lambda x, i=i: x['defs'][i][1],
+               lambda x, v, i=i: x['defs'][i].__setitem__(1, v))
+    for k in sorted(c.get('user', {})):
+        shrink(lambda x, k=k: x['user'][k], lambda x, v, k=k: x['user'].__setitem__(k, v))
+    if not c.get('read') and not c.get('cli'):
+        shrink(lambda x: x['use'], lambda x, v: x.__setitem__('use', v))
+    return drop(c)
+
+
 def check_case(case):
     drive.enable_library_cache()
     if case.get('kind') == 'flag' and case.get('cli'):
